@@ -12,14 +12,28 @@ import json
 from xml.sax.saxutils import escape
 
 
+class Raw(str):
+    """Element content that is XML markup itself (an unsupported element holding elements); in the dictionary forms the
+    same characters are plain text."""
+
+
+def esc(text):
+    return str(text) if isinstance(text, Raw) else escape(text)
+
+
 def el(tag, text, ind=""):
-    return "%s<%s>%s</%s>\n" % (ind, tag, escape(text), tag)
+    if tag == "#comment":
+        return "%s<!--%s-->\n" % (ind, text)
+    return "%s<%s>%s</%s>\n" % (ind, tag, esc(text), tag)
 
 
 def xml_value(v, ind):
     out = "%s<value>%s" % (ind, escape(v["text"]))
     for tag, text in v["attrs"]:
-        out += "<%s>%s</%s>" % (tag, escape(text), tag)
+        if tag == "#comment":
+            out += "<!--%s-->" % text
+            continue
+        out += "<%s>%s</%s>" % (tag, esc(text), tag)
     return out + "</value>\n"
 
 
@@ -30,12 +44,16 @@ def xml_prop(p, ind):
         out += el("name", p["name"], i2)
     if p.get("id") is not None:
         out += el("id", p["id"], i2)
+    own = ""
     for k, v in p["attrs"].items():
-        out += el(k, v, i2)
+        own += el(k, v, i2)
     for tag, text in p.get("extra", []):
-        out += el(tag, text, i2)
+        own += el(tag, text, i2)
+    vals = ""
     for v in p["values"]:
-        out += xml_value(v, i2)
+        vals += xml_value(v, i2)
+    # 1.0 files hold the elements of a Property in any order
+    out += (vals + own) if p.get("order") == "values-first" else (own + vals)
     return out + ind + "</property>\n"
 
 
@@ -93,7 +111,9 @@ def to_dict(doc, native=False):
     def val(v):
         d = {"value": nat(v["text"])}
         for tag, text in v["attrs"]:
-            d.setdefault(tag, nat(text) if tag == "uncertainty" else text)      # a dictionary holds every key once
+            if tag == "#comment":
+                continue
+            d.setdefault(tag, nat(text) if tag == "uncertainty" else str(text))      # a dictionary holds every key once
         return d
 
     def prop(p):
@@ -102,10 +122,14 @@ def to_dict(doc, native=False):
             d["name"] = p["name"]
         if p.get("id") is not None:
             d["id"] = p["id"]
+        if p.get("order") == "values-first":
+            d["values"] = [val(v) for v in p["values"]]
         d.update(p["attrs"])
         for tag, text in p.get("extra", []):
-            d[tag] = text
-        d["values"] = [val(v) for v in p["values"]]
+            if tag != "#comment":
+                d[tag] = str(text)
+        if p.get("order") != "values-first":
+            d["values"] = [val(v) for v in p["values"]]
         return d
 
     def sec(s):
@@ -114,7 +138,8 @@ def to_dict(doc, native=False):
             d["id"] = s["id"]
         d.update(s["attrs"])
         for tag, text in s.get("extra", []):
-            d[tag] = text
+            if tag != "#comment":
+                d[tag] = str(text)
         d["properties"] = [prop(p) for p in s["properties"]]
         d["sections"] = [sec(c) for c in s["sections"]]
         return d
@@ -124,7 +149,8 @@ def to_dict(doc, native=False):
     if doc.get("id") is not None:
         d["id"] = doc["id"]
     for tag, text in doc.get("extra", []):
-        d[tag] = text
+        if tag != "#comment":
+            d[tag] = str(text)
     d["sections"] = [sec(s) for s in doc["sections"]]
     return {"Document": d, "odml-version": "1"}
 
@@ -278,6 +304,40 @@ def deviations():
     add("foo:prop", lambda d: _p(d, "p1")["extra"].append(("foo", "bar")))
     add("foo:value", lambda d: (_setval(_p(d, "p1"), 0, _p(d, "p1")["values"][0] if _p(d, "p1")["values"] else V("1")),
                                 _p(d, "p1")["values"][0]["attrs"].append(("foo", "bar"))))
+    # unsupported elements that hold odML elements themselves: all of it is dropped, nothing of it is lifted, and the
+    # walk over the rest of the document goes on
+    inner_sec = "<section><name>inner</name><type>t</type><property><name>ip</name><value>1<unit>kV</unit></value></property></section>"
+    inner_prop = "<property><name>ip</name><value>1<unit>kV</unit></value></property>"
+    add("foo-nested:doc", lambda d: d["extra"].append(("foo", Raw(inner_sec))))
+    add("foo-nested:sec", lambda d: d["sections"][0]["extra"].append(("foo", Raw(inner_sec + inner_prop))))
+    add("foo-nested:nested-sec", lambda d: d["sections"][0]["sections"][0]["extra"].append(("foo", Raw(inner_sec))))
+    add("foo-nested:prop", lambda d: _p(d, "p1")["extra"].append(("foo", Raw(inner_prop + "<value>9</value>"))))
+    add("foo-nested:value", lambda d: _p(d, "p2")["values"][0]["attrs"].append(("foo", Raw("<unit>kV</unit><definition>inner</definition>"))))
+    add("comment:value", lambda d: _p(d, "p2")["values"][0]["attrs"].extend([("#comment", " note "), ("unit", "mV")]))
+    # the Property's own elements after its value elements, own and value-borne attributes agreeing or conflicting
+    def values_first(d, vattrs):
+        p = _p(d, "p1")
+        p["order"] = "values-first"
+        p["attrs"].update({"definition": "pdef"})
+        p["values"] = [V("1", ("type", "int"), *vattrs), V("2")]
+    add("values-first:plain", lambda d: values_first(d, []))
+    add("values-first:conflict", lambda d: values_first(d, [("definition", "vdef"), ("reference", "vref")]))
+    add("values-first:conflict-on-later-value", lambda d: (values_first(d, []), _p(d, "p1")["values"][1]["attrs"].append(("definition", "vdef"))))
+    add("values-first:agree", lambda d: values_first(d, [("definition", "pdef")]))
+    # elements that are legal elsewhere in the tree, at a level that does not support them: only that one is dropped
+    add("stray:doc:definition", lambda d: d["extra"].append(("definition", "stray")))
+    add("stray:doc:unit", lambda d: d["extra"].append(("unit", "stray")))
+    add("stray:doc:type", lambda d: d["extra"].append(("type", "stray")))
+    add("stray:sec:value", lambda d: d["sections"][0]["extra"].append(("value", "stray")))
+    add("stray:sec:unit", lambda d: d["sections"][0]["extra"].append(("unit", "stray")))
+    add("stray:sec:author", lambda d: d["sections"][0]["extra"].append(("author", "stray")))
+    add("stray:sec:dependency", lambda d: d["sections"][0]["extra"].append(("dependency", "stray")))
+    add("stray:nested-sec:value", lambda d: d["sections"][0]["sections"][0]["extra"].append(("value", "stray")))
+    add("stray:prop:author", lambda d: _p(d, "p1")["extra"].append(("author", "stray")))
+    add("stray:prop:date", lambda d: _p(d, "p2")["extra"].append(("date", "2020-01-01")))
+    add("comment:doc", lambda d: d["extra"].append(("#comment", " note ")))
+    add("comment:sec", lambda d: d["sections"][0]["extra"].append(("#comment", " note ")))
+    add("comment:prop", lambda d: _p(d, "p1")["extra"].append(("#comment", " note ")))
     add("mapping:sec", lambda d: d["sections"][1]["extra"].append(("mapping", "m#n")))
     add("synonym:prop", lambda d: _p(d, "p2")["extra"].append(("synonym", "alias")))
     # unnamed Properties
